@@ -187,7 +187,7 @@ OPTS = {'quick': {'time_budget': 70}, 'thorough': {'time_budget': 1500}}
 META = {
     'explanation': "C06: sort_order / sort / align_to / transpose / copy / update_ids executed on every representation of a small "
                    "table (all sparsity patterns, all stored-index orders, CSR and CSC layouts) for every permutation / renaming; "
-                   "result compared term-by-term with the permuted abstract table.",
+                   "result compared term-by-term with the permuted abstract table; natural sort on every ordered 3-subset of a 12-id menu mixing integer widths, decimals, bare numbers and trailing text.",
     'encoded': {'biom/table.py': ['sort_order', 'sort', 'align_to', 'transpose', 'copy', 'update_ids', '_index_ids',
                                   '__init__', '_cast_metadata', 'get_value_by_ids', '__getitem__', 'index', 'exists'],
                 'biom/util.py': ['natsort', '_natsort_key', 'index_list'], 'biom/err.py': ['errcheck', 'test']},
